@@ -149,7 +149,7 @@ func (w *W) c17Judge(st *c01State, g string, doc []byte, nd bool) {
 	}
 	st.n++
 	nontrivial := false
-	for ci, cfg := range w.configs() {
+	for ci, cfg := range w.configsAlt(st.n) {
 		fresh := (st.n+ci)%64 == 0
 		pj, err, pan := w.parseGuarded(doc, cfg, nd, fresh)
 		if pan != nil || err != nil {
